@@ -27,8 +27,6 @@ ALLOW = {
     ('set-order', 't4_geom_convert/Kernel/Volume/ConstructVolumeT4.py::construct_volume_t4', 'iteration over the set tr_surf_ids'):
         'set of ints built by a deterministic insertion sequence: CPython iterates it in an order that is a function of '
         'the insertion history (no hash randomisation for ints) -- assumption',
-    ('set-order', 't4_geom_convert/Kernel/Volume/ConstructVolumeT4.py::remove_unused_volumes', 'iteration over the set unused'):
-        'the loop only deletes dictionary entries: order-insensitive',
     ('set-order', 'MIP/geom/main.py::get_geom', 'iteration over the set used'): 'MIP helper not called by the converter',
 }
 
